@@ -24,7 +24,7 @@ RULE = (
     "reference-encoder-written) with bit flips, byte inserts / deletes, splices of two streams, truncations, duplicated "
     "frames; (c) structure-aware hostile streams built with my wire codec: declared table sizes 4097..2^32-1, frame / row / "
     "string lengths up to 2^62, quoted triples nested 1..300, options rows in odd places, 10^4 empty frames, ids 2^32-1, "
-    "invalid UTF-8, over-long varints, plus four fixed large inputs (4*10^5 leading / 10^6 / 3*10^5 trailing empty frames, "
+    "invalid UTF-8, over-long varints, short typed literals that declare huge magnitudes (1E+200000000 and the like), plus four fixed large inputs (4*10^5 leading / 10^6 / 3*10^5 trailing empty frames, "
     "5*10^4 rows in one frame); each through parse_jelly_flat, parse_jelly_grouped and parse_jelly_to_graph of both "
     "integrations, from BytesIO and from a non-seekable short-reading raw source; (d) atheris coverage-guided campaigns on "
     "the four flat / grouped entry points with a structure-aware custom mutator, seeded and empty corpus. Oracle, enforced "
@@ -104,12 +104,27 @@ def _nest(depth, missing=None, slot="o"):
 def hostile(draw):
     kind = draw(st.sampled_from(["huge_tables", "huge_frame_len", "huge_row_len", "deep_nesting", "odd_options",
                                  "many_empty_frames", "huge_ids", "bad_utf8", "overlong_varint", "huge_string_len",
-                                 "many_rows", "metadata_flood"]))
+                                 "many_rows", "metadata_flood", "numeric_lexical"]))
     big = draw(st.sampled_from([4097, 65536, 2 ** 20, 2 ** 24, 2 ** 26, 2 ** 27, 2 ** 28, 2 ** 31 - 1, 2 ** 31, 2 ** 32 - 1]))
     opts = {"physical_type": draw(st.sampled_from([1, 2, 3])), "logical_type": 0, "max_name_table_size": 16,
             "max_prefix_table_size": 8, "max_datatype_table_size": 8, "version": 1}
     stmt = {"s": ("iri", 1, 1), "p": ("iri", 0, 0), "o": ("lit", "x", None)}
     base_rows = [("options", opts), ("prefix", 0, "http://p/"), ("name", 0, "a"), ("name", 0, "b"), ("triple", stmt)]
+    if kind == "numeric_lexical":
+        # short lexical forms that *declare* huge magnitudes: an adapter that evaluates or re-renders them balloons
+        xsd = "http://www.w3.org/2001/XMLSchema#"
+        lexes = {"decimal": ["1E+200000000", "1e999999999", "0." + "0" * 50 + "1", "1E-300000000"],
+                 "integer": ["9" * 4000, "1E+99999999", "+" + "0" * 3000 + "7"],
+                 "double": ["1e400", "-1E+999999999", "NaN", "INF"],
+                 "float": ["1e40", "1E+99999999"],
+                 "gYear": ["999999999999", "-99999999999999"], "dateTime": ["99999999-12-31T23:59:59Z"],
+                 "duration": ["P" + "9" * 200 + "Y"], "hexBinary": ["F" * 4001], "base64Binary": ["A" * 4002],
+                 "nonNegativeInteger": ["1" + "0" * 5000], "boolean": ["maybe", "1" * 100]}
+        dt = draw(st.sampled_from(sorted(lexes)))
+        lexv = draw(st.sampled_from(lexes[dt]))
+        rows = [("options", {**opts, "physical_type": 1}), ("datatype", 0, xsd + dt),
+                ("triple", {"s": ("bnode", "a"), "p": ("bnode", "b"), "o": ("lit", lexv, ("dt", 1))})]
+        return wire.enc_stream([{"rows": rows, "metadata": []}], True)
     if kind == "huge_tables":
         field = draw(st.sampled_from(["max_name_table_size", "max_prefix_table_size", "max_datatype_table_size"]))
         rows = [("options", {**opts, field: big})] + base_rows[1:]
@@ -454,6 +469,11 @@ def fixed_hostile():
            valid + b"\x00" * 300_000]                        # trailing empty frames
     rows = [("options", opts)] + [("triple", stmt)] * 50_000  # one frame with 5*10^4 rows
     out.append(wire.enc_stream([{"rows": rows, "metadata": []}], True))
+    # ~90-byte streams whose single literal declares a huge magnitude
+    for lexv in ("1E+200000000", "1e999999999"):
+        rows = [("options", opts), ("datatype", 0, "http://www.w3.org/2001/XMLSchema#decimal"),
+                ("triple", {"s": ("bnode", "a"), "p": ("bnode", "b"), "o": ("lit", lexv, ("dt", 1))})]
+        out.append(wire.enc_stream([{"rows": rows, "metadata": []}], True))
     return out
 
 
@@ -468,7 +488,7 @@ def run_fixed(spec, acc):
         v = check_input(d)
         if v is None:
             continue
-        if v.signature.startswith("C17:slow") or v.signature == "C17:hang":
+        if (v.signature.startswith("C17:slow") or v.signature == "C17:hang") and len(d) > 65536:
             # the 20 s bound is stated for inputs <= 64 KiB; these are larger
             acc.counters["large_input_slow_not_asserted"] += 1
             continue
